@@ -36,7 +36,7 @@ assert not _DD.issues and sorted(_DD.defs) == sorted(e.label for e in _REF_DEFS)
 _DV = DefValidator(_DD)
 
 EXPAND, SHRINK, COPY = 0, 1, 2
-_HARDWIRED = True     # HARDWIRED-TEST: known-finding exclusions on while developing; False = governed by known_findings.json
+_HARDWIRED = False    # True: known-finding exclusions hard-wired on (development); False: governed by known_findings.json
 _POSITIONS = [[1], [1, 3], [0, 1, 2, 3]]
 
 
@@ -261,7 +261,7 @@ def _alg_pre(nm, v, form, pos, n, o1, o2, o3):
         return False
     if len(v) > R.N(2) or not R.scell(v) or len(nm) != 2:
         return False
-    if pos != 1 and len(v) > R.env_int("VP_NV", 0):
+    if pos != 1 and len(v) > R.env_int("VP_NV3", 0):
         return False                     # the long values go with the annotation 'G, (U, B)'
     if not R.ascii_printable(nm) or not R.ascii_printable(v) or not _no_delims(v):
         return False
@@ -396,7 +396,7 @@ def _dx_pre(nm, v, w, shape):
         return False
     if not (R.env_int("VP_SHAPE_LO", 0) <= shape <= R.env_int("VP_SHAPE_HI", NSHAPE3)):
         return False
-    if len(nm) != 2 or len(v) > R.N(1) or len(w) > R.N(1) or not R.scell(v):
+    if len(nm) != 2 or len(v) > R.N(1) or len(w) > R.N(1) or not R.scell(v) or not _env_is("VP_LENW", len(w)):
         return False
     if shape != 0 and (len(v) > R.env_int("VP_NV", 1) or len(w) > R.env_int("VP_NV", 1)):
         return False                     # the long values go with the exact shape
@@ -487,12 +487,17 @@ _OUT = ("definition sets other than the fixed five; unit-carrying placeholders b
         "(pandas); def_expand_gather; non-ASCII text")
 
 
+_NGROUPS = ({"VP_NLO": 0, "VP_NHI": 2}, {"VP_NOPS": 3, "VP_O1": 0}, {"VP_NOPS": 3, "VP_O1": 1},
+            {"VP_NOPS": 3, "VP_O1": 2})
+_VALUE_DEFS = [i for i, e in enumerate(_REF_DEFS) if e.takes_value]
+
+
 def _acc_cells_quick():
     out = []
     for sfx in (0, 1):
         out.append({"VP_SFX": sfx, "VP_LEN": 1})
-        out.append({"VP_SFX": sfx, "VP_LEN": 2, "VP_SHAPE_LO": 0, "VP_SHAPE_HI": 5})
-        out.append({"VP_SFX": sfx, "VP_LEN": 2, "VP_SHAPE_LO": 6, "VP_SHAPE_HI": 11})
+        for lo in (0, 4, 8):
+            out.append({"VP_SFX": sfx, "VP_LEN": 2, "VP_SHAPE_LO": lo, "VP_SHAPE_HI": lo + 3})
     return out
 
 
@@ -500,34 +505,71 @@ def _acc_cells(n):
     return R.product_cells(R.int_cells("VP_SFX", 0, 1), R.str_cells(n, split1_from=2, split2_from=3, minlen=1))
 
 
-def _alg_cells(ndefs, split3=True):
+def _alg_cells_quick(ndefs):
     out = []
     for w in range(ndefs):
-        if split3:
-            for c in ({"VP_NLO": 0, "VP_NHI": 2}, {"VP_NOPS": 3, "VP_O1": 0}, {"VP_NOPS": 3, "VP_O1": 1},
-                      {"VP_NOPS": 3, "VP_O1": 2}):
-                out.append(dict(c, VP_WHICH=w, VP_FORM=0))
+        if w in _VALUE_DEFS:
+            for form in (0, 1):
+                out += [dict(c, VP_WHICH=w, VP_FORM=form) for c in _NGROUPS]
         else:
             out.append({"VP_WHICH": w, "VP_FORM": 0})
-        out.append({"VP_WHICH": w, "VP_FORM": 1})
+            out += [{"VP_WHICH": w, "VP_FORM": 1, "VP_NLO": 0, "VP_NHI": 2}, {"VP_WHICH": w, "VP_FORM": 1, "VP_NOPS": 3}]
     return out
 
 
-def _dx_cells(ndefs):
+def _alg_cells_thorough():
+    """disjoint cover of: 5 definitions x form x v (value definitions: len <= 2, others: len <= 1) x ops"""
+    out = []
+    for w in range(len(_REF_DEFS)):
+        if w in _VALUE_DEFS:
+            for g in _NGROUPS:
+                out.append(dict(g, VP_WHICH=w, VP_FORM=0, VP_LEN=0))
+                out.append(dict(g, VP_WHICH=w, VP_FORM=0, VP_LEN=1))
+                for c0 in range(len(R.DELIMS) + 1):
+                    out.append(dict(g, VP_WHICH=w, VP_FORM=0, VP_LEN=2, VP_C0=c0))
+                out.append(dict(g, VP_WHICH=w, VP_FORM=1, VP_LEN=1))       # a written group needs a value
+                out.append(dict(g, VP_WHICH=w, VP_FORM=1, VP_LEN=2))
+        else:
+            out += [dict(g, VP_WHICH=w, VP_FORM=0) for g in _NGROUPS]
+            out.append({"VP_WHICH": w, "VP_FORM": 1})
+    return out
+
+
+def _dx_cells_quick(ndefs):
     out = []
     for w in range(ndefs):
-        for c in ({"VP_SHAPE": 0}, {"VP_SHAPE": 1}, {"VP_SHAPE": 2}, {"VP_SHAPE_LO": 3, "VP_SHAPE_HI": 7}):
-            out.append(dict(c, VP_WHICH=w))
+        if w in _VALUE_DEFS:
+            out += [dict(c, VP_WHICH=w) for c in ({"VP_SHAPE": 0}, {"VP_SHAPE": 1}, {"VP_SHAPE": 2},
+                                                  {"VP_SHAPE_LO": 3, "VP_SHAPE_HI": 7})]
+        else:
+            out += [{"VP_WHICH": w, "VP_SHAPE_LO": 0, "VP_SHAPE_HI": 2}, {"VP_WHICH": w, "VP_SHAPE_LO": 3, "VP_SHAPE_HI": 7}]
     return out
 
+
+def _dx_cells_thorough():
+    """(a) every text incl. delimiters, v / w up to 1 character, all variations, all five definitions;
+    (b) value definitions, exact variation, v / w up to 2 characters without ',()' (a cell per length pair;
+        the pairs with both lengths <= 1 belong to (a))"""
+    out = [dict(c, VP_N=1, VP_NODELIM=0) for c in _dx_cells_quick(len(_REF_DEFS))]
+    for w in _VALUE_DEFS:
+        for lv in (0, 1, 2):
+            for lw in (0, 1, 2):
+                if lv == 2 or lw == 2:
+                    out.append({"VP_WHICH": w, "VP_SHAPE": 0, "VP_LEN": lv, "VP_LENW": lw, "VP_N": 2, "VP_NODELIM": 1})
+    return out
+
+
+_NAME_Q = ("every printable-ASCII name with 1 <= len(name) <= 2 that holds none of ',()' and does not start '#/'")
+_NAME_T = "every printable-ASCII name with 1 <= len(name) <= 3 that does not start '#/'"
 
 HARNESSES = [
     R.H("def_accept", _T_ACC,
-        quick=R.tier(cells=_acc_cells_quick(), env={"VP_N": 2, "VP_NODELIM": 1}, timeout=300,
-                     bound="'(Definition/' + name + ['/#'] + body + ')' for every printable-ASCII name with "
-                           "1 <= len(name) <= 2 (not starting '#/'), both suffix choices, 12 fixed bodies"),
-        thorough=R.tier(cells=_acc_cells(3), env={"VP_N": 3}, timeout=600, path_timeout=60,
-                        bound="the same with 1 <= len(name) <= 3"),
+        quick=R.tier(cells=_acc_cells_quick(), env={"VP_N": 2, "VP_NODELIM": 1}, timeout=400,
+                     bound="'(Definition/' + name + ['/#'] + body + ')' for " + _NAME_Q + ", both suffix choices, "
+                           "12 fixed bodies (no / plain / nested content, '#' on a value tag, on a plain tag, on "
+                           "two tags, twice on one tag, inner Def / Def-expand / Definition, two groups, extra tag)"),
+        thorough=R.tier(cells=_acc_cells(3), env={"VP_N": 3}, timeout=900, path_timeout=60,
+                        bound="the same for " + _NAME_T),
         what="DefinitionDict.check_for_definitions stores exactly the definitions the reference accepts (D1-D5): "
              "key = lower-cased label, entry name / takes_value / content (up to sibling order) as written; "
              "dd.issues stays empty",
@@ -536,42 +578,46 @@ HARNESSES = [
         stubs=_STUBS + _STUB_DICT, outside=_OUT),
     R.H("def_duplicate", _T_DUP,
         quick=R.tier(cells=R.product_cells([{"VP_K": 0}], [{"VP_VIA": 0}, {"VP_VIA": 2}]),
-                     env={"VP_N": 2, "VP_NODELIM": 1},
-                     timeout=300,
-                     bound="first definition 'aB'; second '(Definition/' + n2 + '/#, (C/#))' for every "
-                           "printable-ASCII n2 with 1 <= len(n2) <= 2; added via a second string or by merging "
-                           "two dictionaries"),
-        thorough=R.tier(cells=R.product_cells(R.int_cells("VP_K", 0, 1), R.int_cells("VP_VIA", 0, 2),
-                                              R.str_cells(3, split1_from=3, minlen=1)),
+                     env={"VP_N": 2, "VP_NODELIM": 1}, timeout=400,
+                     bound="dictionary holding 'aB'; second definition '(Definition/' + n2 + '/#, (C/#))' for "
+                           "n2 = " + _NAME_Q + "; added by a second check_for_definitions call or by merging two "
+                           "dictionaries"),
+        thorough=R.tier(cells=R.product_cells([{"VP_K": 0}], R.int_cells("VP_VIA", 0, 2),
+                                              R.str_cells(3, split1_from=3, minlen=1))
+                        + [{"VP_K": 1, "VP_VIA": v, "VP_LEN": 1} for v in (0, 1, 2)],
                         env={"VP_N": 3}, timeout=900, path_timeout=60,
-                        bound="first definition 'aB' or 'Q'; n2 with 1 <= len(n2) <= 3; three ways of adding"),
+                        bound="dictionary holding 'aB': n2 = " + _NAME_T + "; holding 'Q': every one-character n2; "
+                              "added by a second call, inside the same string, or by merging two dictionaries"),
         what="a second definition whose label equals an accepted one case-insensitively is reported exactly once "
              "and ignored (the first entry stays untouched); any other acceptable one is added silently",
         oracle="models/defs_ref.py accept_all() (D6)", stubs=_STUBS + _STUB_DICT, outside=_OUT),
     R.H("expand_shrink_algebra", _T_ALG,
-        quick=R.tier(cells=_alg_cells(3), env={"VP_N": 1, "VP_M": 3, "VP_NDEFS": 3, "VP_POSSET": 1, "VP_NODELIM": 1},
-                     timeout=300,
-                     bound="annotations 'G, (U, B)' and 'Def/ef, (U, Def/AB)', U = Def/<nm>[/<v>] or its written "
-                           "Def-expand group; nm = any letter-case spelling of ab | cd | ef; every printable-ASCII "
-                           "v with len(v) <= 1; every sequence of <= 3 operations over {expand_defs, shrink_defs, "
-                           "copy}"),
-        thorough=R.tier(cells=R.product_cells(_alg_cells(5), R.str_cells(2)),
-                        env={"VP_N": 2, "VP_M": 3, "VP_POSSET": 2}, timeout=900, path_timeout=60,
-                        bound="the same with U also at top level and at depth 2, all five definitions, len(v) <= 2"),
+        quick=R.tier(cells=_alg_cells_quick(3),
+                     env={"VP_N": 1, "VP_M": 3, "VP_NDEFS": 3, "VP_POSSET": 1, "VP_NODELIM": 1}, timeout=400,
+                     bound="'G, (U, B)' with U = Def/<nm>[/<v>] or its written Def-expand group, nm = any "
+                           "letter-case spelling of ab | cd | ef, every printable-ASCII v (none of ',()') with "
+                           "len(v) <= 1 for cd and v = '' for ab, ef; plus 'Def/ef, (U, Def/AB)' with v = ''; "
+                           "every sequence of <= 3 operations over {expand_defs, shrink_defs, copy}"),
+        thorough=R.tier(cells=_alg_cells_thorough(),
+                        env={"VP_N": 2, "VP_M": 3, "VP_POSSET": 2, "VP_NV": 1}, timeout=900, path_timeout=60,
+                        bound="'G, (U, B)' for all five definitions, every printable-ASCII v with len(v) <= 2 "
+                              "(value definitions) / <= 1 (others); plus U at top level, at depth 2 and next to "
+                              "two other uses with v = ''; every sequence of <= 3 operations"),
         what="after every operation str() terminates and equals the reference rendering (every use expanded after "
              "expand_defs, every use in label form after shrink_defs, unchanged by copy; expansion = "
              "(Def-expand/<label>[/<v>], content with '#' replaced by v)); hence expand.expand = expand and "
              "shrink.expand = identity; a copy is a different object and leaves its source unchanged",
         oracle="models/defs_ref.py Annot.render() (E1-E3)", stubs=_STUBS, outside=_OUT),
     R.H("defexpand_valid", _T_DX,
-        quick=R.tier(cells=_dx_cells(3), env={"VP_N": 1, "VP_NDEFS": 3, "VP_NODELIM": 1}, timeout=300,
+        quick=R.tier(cells=_dx_cells_quick(3), env={"VP_N": 1, "VP_NDEFS": 3, "VP_NODELIM": 1}, timeout=400,
                      bound="written groups (Def-expand/<nm>[/<v>], content[<w>]) in 7 variations (exact, content "
                            "order reversed, tag after content, sibling missing / extra, second group, no content); "
-                           "nm = any letter-case spelling of ab | cd | ef; printable-ASCII v, w with len <= 1"),
-        thorough=R.tier(cells=R.product_cells(_dx_cells(5), R.str_cells(2)), env={"VP_N": 2}, timeout=900,
-                        path_timeout=60,
-                        bound="the same for all five definitions (plus order inside a nested group), len(v), "
-                              "len(w) <= 2"),
+                           "nm = any letter-case spelling of ab | cd | ef; printable-ASCII v, w (none of ',()') "
+                           "with len <= 1"),
+        thorough=R.tier(cells=_dx_cells_thorough(), env={"VP_NV": 2}, timeout=900, path_timeout=60,
+                        bound="all five definitions (plus order inside a nested group), every printable-ASCII "
+                              "v, w with len <= 1 in all variations; value definitions, exact variation: also "
+                              "every v, w with len <= 2 holding none of ',()'"),
         what="DefValidator.validate_def_tags reports nothing for a written Def-expand group iff its content "
              "equals the expansion of its own label/value up to sibling order at every level (undecided, hence "
              "not asserted, when they differ only in the letter case of a value)",
